@@ -2,9 +2,10 @@ package main
 
 import (
 	cedar "github.com/cedar-policy/cedar-go"
+	"github.com/cedar-policy/cedar-go/types"
+	xeval "github.com/cedar-policy/cedar-go/x/exp/eval"
 	"github.com/cedar-policy/cedar-go/x/exp/schema"
 	"github.com/cedar-policy/cedar-go/x/exp/schema/validate"
-	xeval "github.com/cedar-policy/cedar-go/x/exp/eval"
 )
 
 func init() {
@@ -38,6 +39,30 @@ func runValidate(payload []*Sx) *Sx {
 	runs := L(A("runs"))
 	for _, e := range payload[3].List[1:] {
 		em := storeFromSx(e.List[1])
+		// a conforming store holds the action entities with the transitive closure of their declared groups as parents
+		for uid := range rs.Actions {
+			if _, ok := em[uid]; ok {
+				continue
+			}
+			seen := map[types.EntityUID]bool{}
+			var walk func(u types.EntityUID)
+			walk = func(u types.EntityUID) {
+				if a, ok := rs.Actions[u]; ok {
+					for p := range a.Entity.Parents.All() {
+						if !seen[p] {
+							seen[p] = true
+							walk(p)
+						}
+					}
+				}
+			}
+			walk(uid)
+			var ps []types.EntityUID
+			for p := range seen {
+				ps = append(ps, p)
+			}
+			em[uid] = types.Entity{UID: uid, Parents: types.NewEntityUIDSet(ps...)}
+		}
 		rq := reqFromSx(e.List[2])
 		req, ok := rq.concrete()
 		conform := ok && v.Entities(em) == nil && v.Request(cedar.Request(req)) == nil
